@@ -153,8 +153,12 @@ def exponent(cx, name, specials, regime, box=BOX, db=DB):
             for a in cs:
                 cx.assume((t - a >= EXCL) | (a - t >= EXCL))
         return t, {}
-    d = cx.real(name + '_d', -db, db)
-    return cs[regime - 1] + d, {name + '_d': db}
+    # the offset is the sum of two half-range variables: same set of exponents, but symx's floor-atom
+    # substitution (v := (k + frac - b)/a, meant for wide-range variables) does not rewrite a two-variable form,
+    # so the offset keeps its tiny declared range in the verification conditions
+    d = cx.real(name + '_d', -db / 2, db / 2)
+    e = cx.real(name + '_e', -db / 2, db / 2)
+    return cs[regime - 1] + d + e, {name + '_d': db / 2, name + '_e': db / 2}
 
 
 def far_from(cx, t, cs, dist):
@@ -163,9 +167,35 @@ def far_from(cx, t, cs, dist):
     return AND(conds) if conds else True
 
 
+PRUNE = 1e-13
+PRUNE_BUDGET = 1e-9
+
+
+def _prune(cx, xs):
+    """drop float-rounding residue terms (|coefficient| < 1e-13; every monomial of these residuals is a product
+    of band offsets / enclosure variables, all bounded by 1) from harness-computed residual entries.  The
+    dropped mass is measured and must stay below 1e-9; the tolerance of the comparison is reduced by that
+    budget, so the claim is not weakened.  Without this, rounding dust keeps every trigonometric atom alive in
+    otherwise constant entries and makes the solver's witness search for wrong oracles needlessly heavy."""
+    if cx.mode != 'sym':
+        return xs
+    from symx.snum import SNum
+
+    out, worst = [], 0.0
+    for x in xs:
+        if isinstance(x, SNum):
+            mass = sum(abs(c) for c in x.t.values() if abs(c) < PRUNE)
+            worst = max(worst, mass)
+            x = x.pruned(PRUNE)
+        out.append(x)
+    cx.check(worst < PRUNE_BUDGET, 'harness.pruned-rounding-residue-within-budget')
+    return out
+
+
 def close0(cx, xs, small, tol, label):
     xs = small_angle_abstract(cx, xs, small) if small else xs
-    cx.close(xs, [0] * len(xs), tol=tol, label=label)
+    xs = _prune(cx, xs)
+    cx.close(xs, [0] * len(xs), tol=tol - PRUNE_BUDGET, label=label)
 
 
 def same_up_to_phase(cx, n, payload_ops, ref_ops, small, label, tol=None):
@@ -245,13 +275,13 @@ def ionq_1op(name, tier):
         pts.append({'choose:regime': 0, 't': v, 'atol': 1e-8})
     for i in range(len(cs)):
         for dv in (0.0, 5e-9, -1e-8, 1.7e-8, 3e-6):
-            pts.append({'choose:regime': i + 1, 't_d': dv, 'atol': 1e-8, 'choose:place': i % len(places)})
+            pts.append({'choose:regime': i + 1, 't_d': dv / 2, 't_e': dv / 2, 'atol': 1e-8, 'choose:place': i % len(places)})
     return Obligation(
         f'ionq.qis.1op.{name}',
         body,
         twin=lambda cx: body(cx, wrong=True),
         points=pts,
-        opts={'lattices': (8, 6), 'weight': 2},
+        opts={'lattices': (8, 6, 16), 'weight': 2},
         desc=f'Serializer(atol symbolic in [0,1e-8]).serialize_single_circuit({name}(exponent t) on placement): IonQ-documented meaning of the emitted op == documented '
         f'Cirq matrix up to global phase; regimes: generic box [-4,4] minus 1.5e-8 neighbourhoods, and a+d (|d|<=1e-5) for each of the {len(cs)} special values a in the box; '
         'rejection (ValueError) only for H/CNOT/SWAP and only outside the acceptance band',
@@ -356,7 +386,9 @@ def build_shape(cx, ops, band_sel, wrong=False, prefix=''):
     fam = ionq_families()
     cops, ref, small = [], [], {}
     si = 0
-    first_sym = True
+    # the twin perturbs the LAST parametric op: all other factors cancel syntactically in phase_residual, so
+    # the refutation does not depend on a heavy non-linear witness search
+    last_sym = max(i for i, (g, _w) in enumerate(ops) if not g.startswith('fix'))
     for oi, (g, wires) in enumerate(ops):
         qs = [cirq.LineQubit(i) for i in wires]
         if g.startswith('fix'):
@@ -374,8 +406,7 @@ def build_shape(cx, ops, band_sel, wrong=False, prefix=''):
         t, sm = exponent(cx, f'{prefix}t{oi}', specials, regime, db=DB_NARROW)
         small.update(sm)
         cops.append(build(t).on(*qs))
-        ref.append((doc(_wrong_exp(t) if (wrong and first_sym) else t), list(wires)))
-        first_sym = False
+        ref.append((doc(_wrong_exp(t) if (wrong and oi == last_sym) else t), list(wires)))
     return cops, ref, small
 
 
@@ -521,7 +552,7 @@ def ionq_native(tier):
             ps = [cx.real(f'a{i}', -2.0, 2.0) for i in range(npar)]
             w = [p for p in ps]
             if wrong:
-                w[0] = w[0] + 0.125
+                w[-1 if gname == 'circuit' else 0] += 0.125
             L = cirq.LineQubit
             if gname == 'gpi':
                 cops, ref, meas = [cirq_ionq.GPIGate(phi=ps[0]).on(L(pl[0]))], [(D.gpi(w[0]), list(pl))], []
@@ -539,7 +570,7 @@ def ionq_native(tier):
                     cirq_ionq.GPIGate(phi=ps[4]).on(L(0)),
                     cirq_ionq.ZZGate(theta=ps[5]).on(L(0), L(2)),
                 ]
-                ref = [(D.gpi2(w[0]), [1]), (D.ionq_ms(ps[1], ps[2], ps[3]), [1, 0]), (D.gpi(ps[4]), [0]), (D.ionq_zz(ps[5]), [0, 2])]
+                ref = [(D.gpi2(w[0]), [1]), (D.ionq_ms(ps[1], ps[2], ps[3]), [1, 0]), (D.gpi(ps[4]), [0]), (D.ionq_zz(w[5]), [0, 2])]
                 meas = [('r', (2, 0)), ('s', (1,))]
             mops = [cirq.measure(*[L(i) for i in wr], key=k) for k, wr in meas]
             prog = cirq_ionq.Serializer().serialize_single_circuit(cirq.Circuit(cops, mops))
@@ -656,6 +687,14 @@ RES_LAYOUTS = {
 }
 
 
+def job_menu(tier):
+    return [(2, 0), (3, 0), (3, 1)] if tier == 'quick' else [(n, li) for n in (2, 3, 4) for li in range(len(RES_LAYOUTS[n]))]
+
+
+def direct_ns(tier):
+    return [3, 5] if tier == 'quick' else [3, 4, 5, 6]
+
+
 def _metadata_for(meas, n):
     """measurement metadata produced by the REAL serializer for this layout (end-to-end key plumbing)"""
     import cirq
@@ -711,8 +750,8 @@ def check_joint(cx, result, meas, outcomes, label):
 def results_job_qpu(tier):
     import cirq_ionq
 
-    menu = [(2, 0), (3, 0)] if tier == 'quick' else [(n, li) for n in (2, 3, 4) for li in range(len(RES_LAYOUTS[n]))]
-    shots_menu = [2] if tier == 'quick' else [1, 3]
+    menu = job_menu(tier)
+    shots_menu = [2] if tier == 'quick' else [3]
 
     def body(cx, wrong=False):
         n, li = menu[cx.choose('layout', len(menu))]
@@ -725,6 +764,9 @@ def results_job_qpu(tier):
         md['shots'] = shots
         jd = {'id': 'j', 'status': 'completed', 'backend': 'qpu.aria-1', 'name': 'n', 'metadata': md, 'stats': {'qubits': n}}
         res = cirq_ionq.Job(FakeIonQClient({k[0]: p[0], k[1]: p[1]}), jd).results()
+        # the conversion branched on every bit of both keys: exactly one value of each key is left on this path
+        # (int() enumerates the feasible values through the solver and escapes loudly on 'unknown')
+        k = [int(x) for x in k]
         cx.check(isinstance(res, cirq_ionq.QPUResult), 'qpu.type')
         cx.check(res.num_qubits() == n, 'qpu.num_qubits')
         cx.check(dict(res.measurement_dict()) == expected_meas(meas), 'qpu.measurement_dict')
@@ -763,7 +805,7 @@ def results_job_qpu(tier):
         body,
         twin=lambda cx: body(cx, wrong=True),
         points=[{'choose:layout': i % len(menu), 'k0': a, 'k1': b, 'p0': x, 'p1': y} for i, (a, b, x, y) in enumerate([(1, 2, 0.5, 0.5), (0, 3, 0.26, 0.74), (2, 1, 1.0, 0.0), (3, 1, 0.4, 0.6), (1, 0, 0.1, 0.9)])],
-        opts={'weight': 6, 'max_paths': 60000},
+        opts={'weight': 6, 'max_paths': 60000, 'decide_timeout_ms': 20000},
         desc='Job.results() (fake non-HTTP client; measurement metadata produced by the real serializer) for a QPU target: two histogram entries with SYMBOLIC little-endian integer keys and '
         'symbolic probabilities -> QPUResult: counts(), counts(key), ordered_results(key), repetitions, to_cirq_result rows are projections of ONE outcome each with the right multiplicities; '
         'bit i of the IonQ key is wire i',
@@ -802,15 +844,14 @@ def _check_sim_sampling(cx, res, meas, n, keys_bits, probs, reps, label, overrid
     dev = total - 1.0
     bound = 1e-5
     normalised = bool(dev * dev <= bound * bound)
-    # order of the requested vector = order of res.probabilities() items
+    # order of the requested vector = order of res.probabilities() items = insertion order of the histogram
+    # (dicts keep insertion order); stated as a verification condition, not decided by the harness
     order_keys = list(res.probabilities().keys())
-    idx = []
-    for kk in order_keys:
-        m = [i for i, (kv, _bits) in enumerate(keys_bits) if bool(EQ(kk, kv))]
-        cx.check(len(m) == 1, f'{label}.probabilities()-keys')
-        if len(m) != 1:
-            return
-        idx.append(m[0])
+    cx.check(len(order_keys) == len(keys_bits), f'{label}.probabilities()-size')
+    if len(order_keys) != len(keys_bits):
+        return
+    cx.check(AND([EQ(kk, kv) for kk, (kv, _b) in zip(order_keys, keys_bits)]), f'{label}.probabilities()-keys-in-histogram-order')
+    idx = list(range(len(keys_bits)))
     want = [(probs[i] / total if normalised else probs[i]) for i in idx]
     cx.close(list(pvec), want, label=f'{label}.requested-probability-vector')
     draws = [cx.vars['choose:draw%d' % j]['value'] for j in range(size)]
@@ -829,7 +870,7 @@ def _check_sim_sampling(cx, res, meas, n, keys_bits, probs, reps, label, overrid
 def results_job_sim(tier):
     import cirq_ionq
 
-    menu = [(2, 0), (3, 0)] if tier == 'quick' else [(n, li) for n in (2, 3, 4) for li in range(len(RES_LAYOUTS[n]))]
+    menu = job_menu(tier)
 
     def body(cx, wrong=False):
         n, li = menu[cx.choose('layout', len(menu))]
@@ -842,6 +883,7 @@ def results_job_sim(tier):
         md['shots'] = reps
         jd = {'id': 'j', 'status': 'completed', 'backend': 'simulator', 'name': 'n', 'metadata': md, 'stats': {'qubits': n}}
         res = cirq_ionq.Job(FakeIonQClient({k[0]: p[0], k[1]: p[1]}), jd).results()
+        k = [int(x) for x in k]  # one value per key is left after the conversion's branches (see the QPU obligation)
         cx.check(isinstance(res, cirq_ionq.SimulatorResult), 'sim.type')
         cx.check(res.num_qubits() == n and res.repetitions() == reps, 'sim.num_qubits/repetitions')
         cx.check(dict(res.measurement_dict()) == expected_meas(meas), 'sim.measurement_dict')
@@ -874,7 +916,7 @@ def results_job_sim(tier):
         body,
         twin=lambda cx: body(cx, wrong=True),
         points=[{'choose:layout': i % len(menu), 'k0': a, 'k1': b, 'p0': x, 'p1': y} for i, (a, b, x, y) in enumerate([(1, 2, 0.5, 0.5), (0, 3, 0.26, 0.74), (2, 1, 0.999995, 0.0), (3, 1, 0.4, 0.3), (1, 0, 0.1, 0.9)])],
-        opts={'weight': 6, 'max_paths': 60000},
+        opts={'weight': 6, 'max_paths': 60000, 'decide_timeout_ms': 20000},
         desc='Job.results() for the simulator target: symbolic little-endian keys and probabilities -> SimulatorResult.probabilities(), probabilities(key) (marginals), '
         'to_cirq_result with a scripted generator: requested probability vector (normalised iff |total-1|<=1e-5) and rows = bits of the drawn outcome at each key\'s targets',
     )
@@ -903,7 +945,7 @@ DIRECT_LAYOUTS = {
 def results_direct_qpu(tier):
     import cirq_ionq
 
-    ns = [3, 5] if tier == 'quick' else [3, 4, 5, 6]
+    ns = direct_ns(tier)
 
     def body(cx, wrong=False):
         n = ns[cx.choose('n', len(ns))]
@@ -950,7 +992,7 @@ def results_direct_qpu(tier):
         body,
         twin=lambda cx: body(cx, wrong=True),
         points=[{'choose:n': 0, 'k0b0': 1, 'k0b1': 0, 'k0b2': 1, 'k1b0': 0, 'k1b1': 1, 'k1b2': 1, 'c0': 1, 'c1': 2}, {'choose:n': 1, 'k0b0': 1, 'k1b4': 1, 'k1b3': 1, 'c0': 2, 'c1': 1}],
-        opts={'weight': 5},
+        opts={'weight': 5, 'decide_timeout_ms': 20000},
         desc='QPUResult(counts={K0: c0, K1: c1}) with big-endian keys K built from SYMBOLIC bits (n up to 6) and symbolic counts in 0..2: ordered_results(key), counts(key), '
         'to_cirq_result: the bit reported for (key, position j) is the bit of wire targets[j], (value >> (n-1-wire)) & 1, and rows are joint outcomes',
     )
@@ -959,7 +1001,7 @@ def results_direct_qpu(tier):
 def results_direct_sim(tier):
     import cirq_ionq
 
-    ns = [3, 5] if tier == 'quick' else [3, 4, 5, 6]
+    ns = direct_ns(tier)
 
     def body(cx, wrong=False):
         n = ns[cx.choose('n', len(ns))]
@@ -973,17 +1015,18 @@ def results_direct_sim(tier):
         for key, w in meas:
             marg = res.probabilities(key)
             want = [V.big_endian_value([obits[i][j] for j in w]) for i in range(2)]
-            same = bool(EQ(want[0], want[1]))
-            cx.check(len(marg) == (1 if same else 2), f'direct.sim.probabilities({key}).size')
-            for kk, vv in marg.items():
-                m = [i for i in range(2) if bool(EQ(kk, want[i]))]
-                cx.check(len(m) >= 1, f'direct.sim.probabilities({key}).key-is-a-projected-outcome')
-                if not m:
+            items = list(marg.items())  # insertion order: the projection of outcome 0 first
+            if len(items) == 1:
+                cx.check(AND([EQ(want[0], want[1]), EQ(items[0][0], want[0])]), f'direct.sim.probabilities({key}).merged-key')
+                cx.close(items[0][1], p[0] + p[1], label=f'direct.sim.probabilities({key}).merged-value')
+            else:
+                cx.check(len(items) == 2, f'direct.sim.probabilities({key}).size')
+                if len(items) != 2:
                     return
-                tot = p[m[0]]
-                for i in m[1:]:
-                    tot = tot + p[i]
-                cx.close(vv, tot, label=f'direct.sim.probabilities({key}).value')
+                from oracles.meas_views import NOT
+
+                cx.check(AND([NOT(EQ(want[0], want[1])), EQ(items[0][0], want[0]), EQ(items[1][0], want[1])]), f'direct.sim.probabilities({key}).keys')
+                cx.close([items[0][1], items[1][1]], [p[0], p[1]], label=f'direct.sim.probabilities({key}).values')
         keys_bits = [(K[i], obits[i]) for i in range(2)]
         _check_sim_sampling(cx, res, meas, n, keys_bits, p, reps, 'direct.sim.to_cirq_result', override=(None, 1)[cx.choose('override', 2)])
 
@@ -992,7 +1035,7 @@ def results_direct_sim(tier):
         body,
         twin=lambda cx: body(cx, wrong=True),
         points=[{'choose:n': 0, 'k0b0': 1, 'k0b1': 0, 'k0b2': 1, 'k1b0': 0, 'k1b1': 1, 'k1b2': 1, 'p0': 0.25, 'p1': 0.75}, {'choose:n': 1, 'k0b0': 1, 'k1b4': 1, 'k1b3': 1, 'p0': 0.6, 'p1': 0.3, 'choose:override': 1}],
-        opts={'weight': 5},
+        opts={'weight': 5, 'decide_timeout_ms': 20000},
         desc='SimulatorResult(probabilities={K0: p0, K1: p1}) with keys from symbolic bits (n up to 6), symbolic probabilities: probabilities(key) marginals; to_cirq_result with scripted '
         'generator (override_repetitions too): requested vector, rows = bits of the drawn outcome at the targets',
     )
@@ -1038,7 +1081,7 @@ def aqt_build(cx, ops, wrong=False):
         a = cx.real(f'a{oi}', -BOX, BOX)
         b = cx.real(f'b{oi}', -2.0, 2.0) if g.startswith('R') else 0.0
         cops.append(build(a, b).on(*[cirq.LineQubit(i) for i in wires]))
-        ref.append((doc((a + 0.25) if (wrong and oi == 0) else a, b), list(wires)))
+        ref.append((doc((a + 0.25) if (wrong and oi == len(ops) - 1) else a, b), list(wires)))
     return cops, ref
 
 
@@ -1211,6 +1254,45 @@ def aqt_reject(tier):
 
 
 # =============================================================================================
+class _Fix:
+    """view of a context in which some finite selectors are fixed (one obligation per selector value, so
+    that the exploration is spread over the worker processes)"""
+
+    def __init__(self, cx, fixed):
+        self._cx = cx
+        self._fixed = fixed
+
+    def choose(self, name, n):
+        if name in self._fixed:
+            return self._fixed[name]
+        return self._cx.choose(name, n)
+
+    def __getattr__(self, a):
+        return getattr(self._cx, a)
+
+
+def split(ob, selector, n, label):
+    out = []
+    for v in range(n):
+        pts = []
+        for env in ob.points:
+            if env.get('choose:' + selector, v) == v:
+                pts.append({k: x for k, x in env.items() if k != 'choose:' + selector})
+        out.append(
+            Obligation(
+                f'{ob.name}.{label(v)}',
+                (lambda cx, v=v: ob.body(_Fix(cx, {selector: v}))),
+                expected=ob.expected,
+                opts=ob.opts,
+                twin=(lambda cx, v=v: ob.twin(_Fix(cx, {selector: v}))),
+                points=pts,
+                desc=f'[{selector}={label(v)}] ' + ob.desc,
+                kind=ob.kind,
+            )
+        )
+    return out
+
+
 def obligations(tier):
     obs = []
     fams = ['X', 'Y', 'Z', 'Rx', 'Rz', 'H', 'CNOT', 'SWAP', 'XX', 'YY', 'ZZ', 'MSrads', 'Xshift'] + (['Ry'] if tier != 'quick' else [])
@@ -1221,11 +1303,14 @@ def obligations(tier):
         obs.append(ionq_circuit(sh, tier))
     obs.append(ionq_batch(tier))
     obs += ionq_native(tier)
-    obs += ionq_meas_layout(tier)
-    obs.append(results_job_qpu(tier))
-    obs.append(results_job_sim(tier))
-    obs.append(results_direct_qpu(tier))
-    obs.append(results_direct_sim(tier))
+    lay, sep = ionq_meas_layout(tier)
+    obs += split(lay, 'variant', 4, lambda v: f'v{v}') + [sep]
+    jm = job_menu(tier)
+    obs += split(results_job_qpu(tier), 'layout', len(jm), lambda v: f'n{jm[v][0]}l{jm[v][1]}')
+    obs += split(results_job_sim(tier), 'layout', len(jm), lambda v: f'n{jm[v][0]}l{jm[v][1]}')
+    dn = direct_ns(tier)
+    obs += split(results_direct_qpu(tier), 'n', len(dn), lambda v: f'n{dn[v]}')
+    obs += split(results_direct_sim(tier), 'n', len(dn), lambda v: f'n{dn[v]}')
     for sh in AQT_SHAPES_QUICK + (AQT_SHAPES_MORE if tier != 'quick' else []):
         obs.append(aqt_json(sh, tier))
     obs.append(aqt_run_sweep(tier))
@@ -1246,7 +1331,12 @@ ASSUMPTIONS = BASE_ASSUMPTIONS + [
     'tolerance bands: an exponent a+d (a special value, |d| <= 1e-5 in the 1-op obligations, <= 2e-8 inside multi-op circuits) makes terms exp(i*w*d) appear; these are over-approximated on the '
     'term level by the Taylor enclosure 1 + i*w*d + eps with |Re eps|,|Im eps| <= (w*D)^2/2 (sound; symx/lemmas.py); within the acceptance band the serializer itself deviates from the circuit by up to '
     'pi*atol/2 = 1.6e-8 per special-cased gate, which the tolerance 1e-7 (2.5e-7 in multi-op circuits, where terms are bounded separately) absorbs',
-    'the union of the regimes (generic: box minus 1.5e-8 neighbourhoods; band: a+d for every special value a+2k in the box) is the whole exponent box',
+    'the union of the regimes (generic: box minus 1.5e-8 neighbourhoods; band: a+d for every special value a+2k in the box) is the whole exponent box; the band offset d is declared as the sum of two '
+    'half-range variables (same set of exponents)',
+    'float-rounding residue terms (|coefficient| < 1e-13) are dropped from the harness-computed residual payload*reference^dagger before the comparison; the dropped mass is checked to be < 1e-9 on every '
+    'path and the comparison tolerance is reduced by 1e-9',
+    'Job.results/_little_endian_to_big branches on every bit of a histogram key, so in the Job.results obligations the symbolic keys are resolved into one path per key value by the code under test '
+    '(solver-driven bounded exploration); in the direct QPUResult/SimulatorResult obligations the key bits stay symbolic inside the verification conditions',
     'json.dumps/json.loads of cirq_aqt are replaced by a structure-preserving pass-through when the payload contains symbolic numbers (text encoding of floats is outside the claim)',
     'IonQ HTTP client replaced by an object returning the histogram; histogram keys are handed over as integers (real API: decimal strings; int(str) parsing is outside the claim)',
     'requests.post/get of cirq_aqt.aqt_sampler replaced by a model Arnica server (HTTP transport outside the claim)',
@@ -1264,7 +1354,7 @@ def main(tier, seed=0, replay=None, only=None, procs=None):
         'circuits': '1 op (14 families x 2-3 placements, every special value in the box with its band); fixed menu of 4 (quick) / 9 (thorough) multi-op shapes with <= 4 ops on <= 3 wires, '
         'one symbolic exponent per parametric gate; batch of 2 circuits',
         'measurement_layouts': '1-3 keys, wires <= 4, key length 1..130 and 341..370 (quick) / 1..370 (thorough), every length explored',
-        'results': 'Job.results: n in {2,3} (quick) / {2,3,4} wires, 2 histogram entries with symbolic keys, symbolic probabilities, shots 2 (quick) / 1,3; direct QPUResult/SimulatorResult: keys from symbolic bits, '
+        'results': 'Job.results: n in {2,3} (quick) / {2,3,4} wires, 2 histogram entries with symbolic keys, symbolic probabilities, shots 2 (quick) / 3; direct QPUResult/SimulatorResult: keys from symbolic bits, '
         'n in {3,6} (quick) / {3,4,5,6}, counts 0..2, 2 repetitions',
         'aqt': '5 (quick) / 8 (thorough) shapes with <= 4 ops on <= 3 wires over Z / PhasedX (R) / XX (MS) incl. global-shift variants; run_sweep with 2 repetitions of symbolic sample bits',
         'tolerance': '1e-7; 2.5e-7 for the band regimes inside multi-op circuits',
